@@ -18,10 +18,28 @@ THEOREMS = [_NS + t for t in (
     "print_scan_roundtrip_nocompress", "message_roundtrip_nocompress", "array_roundtrip_nocompress",
     # tier 3, range compression, for lists that are one run: nxA and a [b] ... z
     "range_roundtrip_const", "range_roundtrip_int",
+    # ... and arithmetic runs of int64 ('h') and of characters ('c'), for lists that are exactly one run
+    # (cell level: Proofs/PrettyRunHuge.lean, PrettyRunChar.lean; statement level: Props/C10.lean)
+    "huge_run_roundtrip", "char_run_roundtrip", "range_roundtrip_huge", "range_roundtrip_char",
+    "huge_run_needs_hrange", "huge_run_needs_hwidth", "huge_delta_count_wraps", "char_run_signed_counterexample",
     # tier 3, range compression in context: constant runs of any scalar type and int32 arithmetic runs among
     # uncompressed scalar values, in any number and order (the cell-level theorem and the statement-level one)
     "runs_roundtrip_cells", "print_scan_roundtrip_runs_partial",
     "runs_message_roundtrip_cells", "message_roundtrip_runs_partial",
+    # tier 3, range compression AND arrays: values, compressed runs and arrays of scalars that themselves contain
+    # compressed runs, in any number and order, values and runs directly behind an array included (cell level and
+    # statement level, lists and whole messages); the side condition for an array header from the next argument;
+    # rtosc_convert_to_range does not look behind `size` cells; the array tag is the type of the last element
+    "runs_arrays_roundtrip_cells", "print_scan_roundtrip_arrays_partial",
+    "runs_arrays_message_roundtrip_cells", "message_roundtrip_arrays_partial",
+    "PrinterPieces.arr_of_next", "convertToRange_arr_next", "convertToRange_append", "arrTag_eq",
+    # the run conditions from the values when arrays may follow the run
+    "PrinterPieces.crun_of_next", "PrinterPieces.irun_of_next",
+    "convertToRange_crun_of_nextW", "convertToRange_irun_of_nextW",
+    # the original list of a list of pieces is an argument list of the property's domain (ItemInDomain)
+    "PrinterPieces.inDomain", "PrinterSegments.domain",
+    # why nested arrays are outside the proved class: the recursion bound of the MODEL's ellipsisTail
+    "nested_arrays_model_fuel_counterexample",
     # when rtosc_convert_to_range finds a run that is followed by further values (the run hypotheses from the values)
     "convertToRange_crun_of_next", "convertToRange_irun_of_next",
     "PrinterSegments.crun_of_next", "PrinterSegments.irun_of_next",
@@ -90,8 +108,47 @@ ASSUMPTIONS = [
     "(range_args_identical), the value behind an arithmetic run is not its continuation a + n*d; the condition for an "
     "uncompressed value stays the printer's own (as in list_roundtrip_uncompressed). range_roundtrip_const / range_roundtrip_int are the "
     "special cases of a list that is exactly one run, with the run conditions stated on the values only",
-    "NOT proved, covered by correspondence + round-trip oracle only: compressed runs inside arrays and lists that "
-    "contain arrays next to compressed runs, arithmetic runs of 'h' 'c' 'T' 'F' values, runs of arrays, nested arrays, "
+    "range compression is also proved together with arrays (print_scan_roundtrip_arrays_partial; "
+    "message_roundtrip_arrays_partial for whole messages): every argument list whose arguments are scalar values, "
+    "compressed runs of them (constant runs of any scalar type, int32 arithmetic runs) and ARRAYS of scalar values "
+    "which may themselves contain compressed runs (5x3, 1 ... 6, 1 3 ... 11 inside the brackets), in any number and "
+    "order, also an array as first or last argument, empty arrays, and values or runs directly behind an array. "
+    "Behind an array the three parties see different left neighbours: the printer (prev_arg_if_range) the array's "
+    "last element, the scanner none (args_before = 0, can_precede_range / prev_ok of fix C11-04), the checker the "
+    "array's text whose type 'a' matches nothing; it is proved that all three lead to the same reading ('a ... z' is "
+    "written only for step +-1 with a non-confusing left neighbour, and is then read with the delta of a range "
+    "without left neighbour; otherwise 'a b ... z' is written and the delta comes from a). Inside an array the "
+    "look-back goes through the cells read so far in the array (args_before = num_read, fix C11-06). The three "
+    "array loops (printer, scanner, checker) are proved for bodies of multi-cell, context-dependent elements. "
+    "Hypotheses (`PrinterPieces`), again exactly the printer's side conditions: rtosc_convert_to_range at the start "
+    "of each top-level piece on the rest of the list returns nothing for a value and for an array header "
+    "(PrinterPieces.arr_of_next / convertToRange_arr_next: always so when the array is the last argument or the next "
+    "argument is no array), the whole constant run, resp. the whole arithmetic run (PrinterPieces.crun_of_next / "
+    "irun_of_next: so whenever the cell behind the run — a value or an array header — is not identical to the run's "
+    "value, resp. not its continuation); the body of an array satisfies "
+    "`PrinterSegments` on its own (the array loop calls rtosc_convert_to_range with the number of cells left in the "
+    "array; convertToRange_append: it does not look behind them), so the value-level run conditions "
+    "PrinterSegments.crun_of_next / irun_of_next apply inside arrays; the values of an array have one type, 'T' and 'F' "
+    "counting as one (`ArrTypesOK`, the checker's arraytypes_match); the array's tag is the type of its last value, 32 "
+    "for an empty array (arrTag_eq; restriction (b) above); overflow / width guards and compression on as before",
+    "nested arrays are outside the proved class, and a statement about them needs a depth hypothesis or a change of the "
+    "MODEL (not of the code): Pretty/Check.lean's ellipsisTail re-skips the left neighbour of a range with the recursion "
+    "bound derived from the length of the range's own text, so the checker model answers Err.fuel on the correctly "
+    "printed text `[[[[[[[[2]]]]]]]] 2 ... 6` (nested_arrays_model_fuel_counterexample; seven levels are fine); the C "
+    "function recurses without a bound, the generator nests at most a few levels",
+    "runs of n >= 5 equal arrays (printed nx[...], an `ASeg.arun` piece of `PrinterPieces`) are part of "
+    "print_scan_roundtrip_arrays_partial / message_roundtrip_arrays_partial as well, the body of the repeated array "
+    "again with compressed runs inside, values and runs directly behind nx[...] included; hypothesis: "
+    "rtosc_convert_to_range returns the whole run of arrays and the block `n x first array` (the printer's own side "
+    "condition; no value-level criterion is proved for it)",
+    "arithmetic runs of int64 ('h') and of character ('c') values are proved for lists that are exactly one run "
+    "(range_roundtrip_huge: run and the step behind it inside int64, width <= 2^63-1, and n <= 2^31-1 for EVERY step "
+    "because rtosc_arg_val_to_int truncates the count of an 'h' range to int — huge_delta_count_wraps, "
+    "huge_run_needs_hrange, huge_run_needs_hwidth show each hypothesis is needed; range_roundtrip_char: every value of "
+    "the run a character of the domain — char_run_signed_counterexample: the run 124..128 prints the byte 0x80, which "
+    "the scanner reads as -128); in context (next to other values, inside arrays) such runs are NOT proved",
+    "NOT proved, covered by correspondence + round-trip oracle only: nested arrays, "
+    "arithmetic runs of 'h' / 'c' values in context, runs of 'T' 'F' values, "
     "a midnight time tag anywhere but at the end of "
     "the text, time fractions without lossless mode",
     "the exact printed text is part of the model/implementation comparison (it ties Pretty/Print.lean to the code); a "
@@ -120,12 +177,17 @@ LEVEL_TEXT = ("Lean theorems: print→check→scan is the identity, with printed
               "a b ... z) stand among uncompressed values in any number and order, under exactly the printer's side "
               "conditions (rtosc_convert_to_range finds these runs; overflow and width guards), the scanned ranges "
               "being compared by their expansion, for lists and whole messages (tier 3, print_scan_roundtrip_runs_partial, "
-              "message_roundtrip_runs_partial); the rest — runs inside "
-              "arrays or next to arrays, 'h'/'c'/boolean arithmetic runs, runs of arrays, "
+              "message_roundtrip_runs_partial), and for every list or message that mixes such values and runs with arrays "
+              "of scalars which may themselves contain compressed runs, values and runs directly behind an array "
+              "and runs of equal arrays (nx[...]) included (print_scan_roundtrip_arrays_partial, "
+              "message_roundtrip_arrays_partial), and for lists that are exactly one arithmetic run of int64 or "
+              "character values (range_roundtrip_huge, range_roundtrip_char); the rest — nested "
+              "arrays, 'h'/'c' arithmetic runs in context, boolean runs, "
               "time fractions without lossless mode — is checked by exact model/implementation "
               "correspondence and by the round-trip oracle evaluated on the implementation, not proved")
-LEVEL_NOTE = ("partial: range compression inside or next to arrays, arithmetic runs of types other than int32, runs of "
-              "arrays, and time fractions without lossless mode, are correspondence + oracle only")
+LEVEL_NOTE = ("partial: nested arrays, arithmetic runs of 'h'/'c' values next to other values or inside arrays, boolean "
+              "runs, a midnight time tag not at the end, and time fractions without lossless mode, are correspondence + "
+              "oracle only")
 
 
 
